@@ -4,6 +4,7 @@ import fcntl
 import hashlib
 import json
 import os
+import re
 import random
 import subprocess
 import sys
@@ -102,10 +103,31 @@ def build(targets=None):
         p = subprocess.run(["timeout", "1500", "make", "-k", "-j12"], cwd=COQ, stdout=subprocess.PIPE,
                            stderr=subprocess.STDOUT, text=True)
         res.log = p.stdout
-        for v in vfiles:
+        # a file counts as built when its .vo is newer than its source AND than the .vo of everything it depends on (a
+        # failed recompilation leaves the .vo of the previous build in place, and make -k does not even try the
+        # files that depend on a failed one), and make reported no error for it
+        deps = _coq_deps()
+        log_failed = set(re.findall(r"\[Makefile:\d+: (\S+?)\.vo\] Error", res.log)) | set(re.findall(r'^File "\./(\S+?)\.v"', res.log, re.M))
+        status = {}
+
+        def fresh(v, stack=()):
+            if v in status:
+                return status[v]
             vo = os.path.join(COQ, v + "o")
             src = os.path.join(COQ, v)
-            if os.path.exists(vo) and os.path.getmtime(vo) >= os.path.getmtime(src):
+            ok = os.path.exists(vo) and os.path.getmtime(vo) >= os.path.getmtime(src) and v[:-2] not in log_failed
+            if ok:
+                for d in deps.get(v, []):
+                    if d in stack:
+                        continue
+                    if not fresh(d, stack + (v,)) or os.path.getmtime(os.path.join(COQ, d + "o")) > os.path.getmtime(vo):
+                        ok = False
+                        break
+            status[v] = ok
+            return ok
+
+        for v in vfiles:
+            if fresh(v):
                 res.ok_files.add(v)
             else:
                 res.failed[v] = _error_for(res.log, v)
@@ -141,6 +163,23 @@ def build(targets=None):
         else:
             res.failed["Extract/Extract.v"] = res.failed.get("Extract/Extract.v", "extraction not built")
     return res
+
+
+def _coq_deps():
+    """{X.v: [Y.v, ...]} from coq_makefile's dependency file (.vo prerequisites of X.vo)"""
+    out = {}
+    path = os.path.join(COQ, ".Makefile.d")
+    if not os.path.exists(path):
+        return out
+    for line in open(path):
+        if ":" not in line:
+            continue
+        lhs, rhs = line.split(":", 1)
+        targets = lhs.split()
+        if not targets or not targets[0].endswith(".vo"):
+            continue
+        out[targets[0][:-1]] = [x[:-1] for x in rhs.split() if x.endswith(".vo")]
+    return out
 
 
 def _error_for(log, v):
